@@ -34,6 +34,7 @@ pub fn run(r: &mut Report) {
     r.case("duplicate-key-is-an-error", json!({"files": ["a/b/x", "c/x"], "strip": ["a/b/", "c/"]}), "Err", format!("{:?}", got.as_ref().map(|x| x.as_ref().map(|m| m.len()).map_err(|e| e.to_string()))), matches!(&got, Ok(Err(_))));
     trees(r);
     run_step_before_after(r);
+    run_step_content_oracle(r);
 }
 
 /// independent oracle: every regular file reachable under `root` (following symlinks to files and directories, never entering a
@@ -141,4 +142,51 @@ fn run_step_before_after(r: &mut Report) {
         Ok(Err(e)) => format!("Err({})", e), Err(p) => format!("panic: {}", p) };
     let want = "materials=[\"delete\", \"keep\", \"modify\"] products=[\"create\", \"keep\", \"modify\"] modify_changed=true rv=Some(7) stdout=Some(\"out\\n\") stderr=Some(\"err\\n\")";
     r.case("run-records-before-and-after", json!({"command": "create, modify, delete, print, exit 7"}), want, obs.clone(), obs == want);
+}
+
+/// whatever the command does to a file that is both material and product - same size, same time stamp, renamed over, swapped - the
+/// product entry is the digest of the bytes that are there AFTER the command and the material entry of those BEFORE (directory oracle)
+fn run_step_content_oracle(r: &mut Report) {
+    let scripts: Vec<(&str, &str)> = vec![
+        ("no-change", "true"),
+        ("same-size-rewrite", "printf bbbb > f"),
+        ("same-size-rewrite-time-stamp-restored", "cp -p f ref; printf bbbb > f; touch -r ref f; rm ref"),
+        ("replaced-by-rename-with-old-time-stamp", "printf cccc > g; touch -r f g; mv g f"),
+        ("two-files-swapped", "mv f t; mv h f; mv t h"),
+        ("rewritten-twice-back-to-original", "printf zzzz > f; printf aaaa > f"),
+        ("file-becomes-directory", "rm f; mkdir f; printf dddd > f/inner"),
+    ];
+    for (id, script) in scripts {
+        let _g = crate::c08::CWD_LOCK.lock().unwrap();
+        let d = crate::fixture::tmpdir();
+        std::fs::write(d.path().join("f"), "aaaa").unwrap();
+        std::fs::write(d.path().join("h"), "hhhh").unwrap();
+        std::fs::create_dir_all(d.path().join("sub")).unwrap();
+        std::fs::write(d.path().join("sub/s"), "ssss").unwrap();
+        fn snapshot(root: &std::path::Path, rel: &str, out: &mut std::collections::BTreeMap<String, Vec<u8>>) {
+            let mut es: Vec<_> = std::fs::read_dir(root.join(rel)).unwrap().map(|e| e.unwrap()).collect();
+            es.sort_by_key(|e| e.file_name());
+            for e in es { let name = if rel.is_empty() { e.file_name().to_string_lossy().to_string() } else { format!("{}/{}", rel, e.file_name().to_string_lossy()) };
+                if e.file_type().unwrap().is_dir() { snapshot(root, &name, out); } else { out.insert(name.clone(), ring::digest::digest(&ring::digest::SHA256, &std::fs::read(root.join(&name)).unwrap()).as_ref().to_vec()); } }
+        }
+        let mut before = std::collections::BTreeMap::new();
+        snapshot(d.path(), "", &mut before);
+        let old = std::env::current_dir().unwrap();
+        std::env::set_current_dir(d.path()).unwrap();
+        let res = no_panic(|| in_toto::runlib::in_toto_run("s", None, &["."], &["."], &["sh", "-c", script], None, None, None));
+        std::env::set_current_dir(old).unwrap();
+        let mut after = std::collections::BTreeMap::new();
+        snapshot(d.path(), "", &mut after);
+        let view = |m: &std::collections::BTreeMap<in_toto::models::VirtualTargetPath, in_toto::models::TargetDescription>| -> std::collections::BTreeMap<String, Vec<u8>> {
+            m.iter().map(|(p, h)| (p.value().to_string(), h.get(&HashAlgorithm::Sha256).map(|v| v.value().to_vec()).unwrap_or_default())).collect() };
+        let (obs, ok) = match &res {
+            Ok(Ok(mb)) => match &mb.metadata { in_toto::models::MetadataWrapper::Link(l) => {
+                let (m, p) = (view(&l.materials), view(&l.products));
+                let wrong_m: Vec<&String> = before.keys().chain(m.keys()).filter(|k| before.get(*k) != m.get(*k)).collect();
+                let wrong_p: Vec<&String> = after.keys().chain(p.keys()).filter(|k| after.get(*k) != p.get(*k)).collect();
+                (format!("materials differing from the directory before: {:?}; products differing from the directory after: {:?}", wrong_m, wrong_p), wrong_m.is_empty() && wrong_p.is_empty()) }
+                _ => ("layout".to_string(), false) },
+            Ok(Err(e)) => (format!("Err({})", e), false), Err(p) => (format!("panic: {}", p), false) };
+        r.case("run-records-what-is-there", json!({"command": script, "scenario": id}), "materials = digests of the directory before, products = digests of the directory after", obs, ok);
+    }
 }
